@@ -177,3 +177,73 @@ def run(ck, prog):
     _run2(ck, prog)
     radius_provenance(ck, prog)
     ck.floor("E2g-radius", 3)
+
+
+def inverse_weights_guarded(ck, prog):
+    """inverse-distance weights 1/d are only formed when NO neighbour has distance zero, and that test ranges over
+    the whole neighbour list (the cover tree returns neighbours unsorted: testing only the first is not enough)"""
+    rule, inst = "E2-guarded-division", "calc_weights: 1/d only under `no distance is zero` tested over all neighbours"
+    b = prog.bodies.get("neighbors::KNNWeightFunction::calc_weights")
+    if not b:
+        ck.violation(rule, inst, "calc_weights", "", expected="anchor exists", found="anchor vanished")
+        return
+    res = Resolver(b)
+    from sa.match import Zero
+    zero = Zero()
+
+    def clo_ret(o):
+        t = res.operand(o)
+        if t[0] == "agg" and t[1].startswith("closure:"):
+            cb = prog.get(t[1][len("closure:"):])
+            return Resolver(cb).local(0) if cb else None
+        return None
+    # division sites: closures mapping an element d to 1/d (or x/d)
+    divs = []
+    for bb, t in b.calls():
+        f = t.get("f")
+        if f and f["path"].endswith(("Iterator::map", "Iterator::for_each")) and len(t["args"]) == 2:
+            r = clo_ret(t["args"][1])
+            if r is not None and any(s[0] == "call" and s[1] == "std::ops::Div::div" and any(x[0] == "arg" for x in subterms(s[2][1])) for s in subterms(r)):
+                if not any(s[0] == "phi" for s in [r]):  # the element-wise `if d == 0 {1} else {0}` map has no division
+                    divs.append(bb)
+    gates = []
+    for (sb, term, tb, fb) in guards.bool_switches(b, res):
+        if term[0] == "call" and term[1].endswith(("Iterator::any", "Iterator::all")) and len(term[2]) == 2:
+            src = term[2][0]
+            if src[0] == "phi":
+                base = [a for a in src[2] if not (a[0] == "call" and a[1].startswith("mut:"))]
+                src = base[0] if len(base) == 1 else src
+            whole = src[0] == "call" and src[1].endswith(("::iter", "::into_iter")) and len(src[2]) == 1 and \
+                (src[2][0][0] == "arg" or (src[2][0][0] == "phi" and any(a[0] == "arg" for a in src[2][0][2])))
+            clo = term[2][1]
+            cb = prog.get(clo[1][len("closure:"):]) if clo[0] == "agg" and clo[1].startswith("closure:") else None
+            c = guards._cond(None, Resolver(cb).local(0)) if cb else None
+            if c and whole and ((zero(c[0]) or zero(c[2])) and c[1] in ("==", "!=")):
+                # edge on which "no element is zero" holds
+                is_any = term[1].endswith("Iterator::any")
+                safe = fb if (is_any and c[1] == "==") or (not is_any and c[1] == "!=") is False else tb
+                if is_any and c[1] == "==":
+                    safe = fb
+                elif (not is_any) and c[1] == "!=":
+                    safe = tb
+                else:
+                    continue
+                gates.append((safe, tb if safe == fb else fb, b.where(sb)))
+    if not divs:
+        ck.violation(rule, inst, b.path, f"{b.loc[0]}:{b.loc[1]}", expected="an inverse-distance map", found="no 1/d map found")
+        return
+    for db in divs:
+        if any(b.dominates(s, db) and not b.dominates(o, db) for (s, o, _) in gates):
+            ck.ok(rule, inst, b.path, b.where(db), f"gated by {[g[2] for g in gates]}")
+        else:
+            ck.violation(rule, inst, b.path, b.where(db), expected="dominated by the `no element of the whole distance list is zero` edge",
+                         found=f"the division is not protected by a zero test over all distances (gates found: {[g[2] for g in gates]})")
+
+
+_run3 = run
+
+
+def run(ck, prog):
+    _run3(ck, prog)
+    inverse_weights_guarded(ck, prog)
+    ck.floor("E2-guarded-division", 1)
